@@ -5,5 +5,6 @@ INDEX = {
     "C01": ["c01"],
     "C02": ["c01"],
     "C03": ["c20"],
+    "C05": ["c05"],
     "C20": ["c20"],
 }
